@@ -31,24 +31,135 @@ pub fn empty_struct_class(v: (u8, u8), nports: usize) -> &'static str {
 	}
 }
 
+/// number of thread populations tried by the concurrent case (quick, thorough)
+const N_STRESS: (usize, usize) = (8, 64);
+
+/// Threads of one process export and re-import DIFFERENT small games at the same time, again and
+/// again: the same version with different port sets in even cases (a leak between exports shows as
+/// another game's field names), different versions in odd ones. Every exported type must be the
+/// one the same game gave single-threaded (itself required to equal the spec tree), and after the
+/// last import the frames must still serialise to the input file.
+fn stress_kind(ctx: &Ctx, k: usize, out: &mut CaseOut) {
+	let nthreads = 12;
+	let iters = ctx.tier.pick(8_000usize, 30_000);
+	let mut inputs = vec![];
+	for (d, b) in crate::stress::games(ctx.seed, k, nthreads, false) {
+		let (Ok(g), Ok(m)) = (common::slp_read(&b, false, false), crate::model::parse(&b)) else { continue };
+		let (v, p) = (g.start.slippi.version, common::ports_of(&g.start));
+		if empty_struct_class(m.v(), p.len()) != "other" {
+			continue;
+		}
+		let p2 = p.clone();
+		let Ok(arr) = guard(move || g.frames.into_struct_array(v, &p2)) else { continue };
+		let mut got = vec![];
+		view::schema_lines(arr.data_type(), "", &mut got);
+		if got != view::expected_schema(m.v(), &view::occupied_chars(&m.start)) {
+			out.count("stress_input_skipped(sequential export has the wrong schema)", 1);
+			continue;
+		}
+		inputs.push((d, b, arr.data_type().clone()));
+	}
+	if inputs.len() < 2 {
+		return;
+	}
+	let n_in = inputs.len();
+	let results = crate::stress::run(inputs, move |_t, (d, b, want)| {
+		let mut o = crate::stress::Outcome::default();
+		let Ok(mut game) = common::slp_read(&b, false, false) else { return o };
+		let (v, p) = (game.start.slippi.version, common::ports_of(&game.start));
+		let Ok(g2) = common::slp_read(&b, false, false) else { return o };
+		let mut frames = Some(g2.frames);
+		for i in 0..iters {
+			let (f, p2) = (frames.take().unwrap(), p.clone());
+			let arr = match guard(move || f.into_struct_array(v, &p2)) {
+				Ok(a) => a,
+				Err(pn) => {
+					o.problems.push(format!("{}: export {} while other threads export other games panicked at {}: {}", d, i, pn.loc, pn.msg));
+					break;
+				}
+			};
+			if arr.data_type() != &want {
+				o.judged_in_full += 1;
+				let (mut a, mut w) = (vec![], vec![]);
+				view::schema_lines(arr.data_type(), "", &mut a);
+				view::schema_lines(&want, "", &mut w);
+				let j = a.iter().zip(w.iter()).position(|(x, y)| x != y).unwrap_or(a.len().min(w.len()));
+				o.problems.push(format!("{}: export {} while other threads export other games has another type: line {}: got {:?} want {:?}", d, i, j, a.get(j), w.get(j)));
+			}
+			match guard(move || Frame::from_struct_array(arr, v)) {
+				Ok(f) => frames = Some(f),
+				Err(pn) => {
+					o.problems.push(format!("{}: import {} while other threads work on other games panicked at {}: {}", d, i, pn.loc, pn.msg));
+					break;
+				}
+			}
+			o.done += 1;
+			if o.problems.len() >= 2 {
+				break;
+			}
+		}
+		if let Some(f) = frames {
+			game.frames = f;
+			match common::slp_write(&game) {
+				Ok(w) if w == b => {}
+				Ok(w) => o.problems.push(format!("{}: after {} concurrent export/import rounds the frames serialise differently: {}", d, o.done, common::first_diff(&b, &w))),
+				Err(f) => o.problems.push(format!("{}: after {} concurrent export/import rounds: {}", d, o.done, f.text())),
+			}
+		}
+		o
+	});
+	for r in results {
+		match r {
+			Ok(o) => {
+				out.evals += o.done;
+				out.count("concurrent_exports", o.done);
+				for p in o.problems.into_iter().take(1) {
+					out.violate_sub(k as u64, "concurrent-export-differs", p, None);
+				}
+			}
+			Err(()) => out.violate_sub(k as u64, "concurrent-export-panic", "a thread of the concurrent case panicked outside the guards".to_string(), None),
+		}
+	}
+	out.class(format!("concurrent|{}-threads|{}", n_in, crate::stress::kind_name(k)));
+}
+
+/// The concurrent family is ONE case, numbered last: its shard reaches it when the other shards
+/// are finishing, so its threads really run side by side on the cores instead of time-sliced among
+/// 16 busy worker processes. The kinds of thread population are its sub-evaluations.
+fn stress_case(ctx: &Ctx) -> CaseOut {
+	let mut out = CaseOut::default();
+	for k in 0..ctx.tier.pick(N_STRESS.0, N_STRESS.1) {
+		if !ctx.mark(k as u64) {
+			continue;
+		}
+		stress_kind(ctx, k, &mut out);
+	}
+	out.sample = Some(json!({"case": "concurrent", "kinds": ctx.tier.pick(N_STRESS.0, N_STRESS.1), "evaluations": out.evals}));
+	out
+}
+
 impl Monitor for C14 {
 	fn id(&self) -> &'static str {
 		"C14"
 	}
 	fn rule(&self) -> String {
-		"same workload space as C01 (all 784 versions, 81 port/ICs configurations in thorough, random histories). Per case: export frames with Frame::into_struct_array; (1) its data_type tree, rendered as ordered 'path: type' lines, must equal the tree built from the hand-transcribed spec tables (names, nesting, order, primitive types; id, ports.P<n>.leader/follower.pre/post, start >= 2.2, end and item: List<item> >= 3.0); (2) row count = frames, struct validity of each character = presence in the history; (3) every exported leaf equals the in-memory column (accessor table) and the model's expected values; (4) Frame::from_struct_array(array) put back into the game must serialise to the identical .slp. distinct = workload classes + distinct schema trees observed.".into()
+		"same workload space as C01 (all 784 versions, 81 port/ICs configurations in thorough, random histories). Per case: export frames with Frame::into_struct_array; (1) its data_type tree, rendered as ordered 'path: type' lines, must equal the tree built from the hand-transcribed spec tables (names, nesting, order, primitive types; id, ports.P<n>.leader/follower.pre/post, start >= 2.2, end and item: List<item> >= 3.0); (2) row count = frames, struct validity of each character = presence in the history; (3) every exported leaf equals the in-memory column (accessor table) and the model's expected values; (4) Frame::from_struct_array(array) put back into the game must serialise to the identical .slp. Every 4th case is preceded on the same thread by the export of a game of a later major version (4, 5, 9, 255) with the same minor and ports (outside the property, not judged). A family of concurrent cases runs 12 threads that each export and re-import a DIFFERENT small game 8 000 (30 000) times at once (same version with other port sets in even cases, other versions in odd ones): every exported type must be the single-threaded one and the frames must still serialise to the input. distinct = workload classes + distinct schema trees observed.".into()
 	}
 	fn lanes(&self, _tier: Tier) -> Vec<Lane> {
 		vec![Lane { kind: LaneKind::Miri, name: "roundtrip", shards: (0..25).collect(), nshards: 25 }]
 	}
 	fn n_cases(&self, ctx: &Ctx) -> usize {
-		self.fixtures.len() + ctx.tier.pick(&self.quick, &self.thorough).len()
+		self.fixtures.len() + ctx.tier.pick(&self.quick, &self.thorough).len() + 1
 	}
 	fn min_classes(&self, tier: Tier) -> usize {
 		tier.pick(60, 100)
 	}
 	fn run(&self, ctx: &Ctx, idx: usize) -> CaseOut {
 		let mut out = CaseOut::default();
+		let n_main = self.fixtures.len() + ctx.tier.pick(&self.quick, &self.thorough).len();
+		if idx >= n_main {
+			return stress_case(ctx);
+		}
 		let Some((desc, bytes, truth)) = case_input(ctx.tier.pick(&self.quick, &self.thorough), &self.fixtures, ctx.seed, idx, &mut out) else { return out };
 		out.evals = 1;
 		let (game, mut game2) = match (common::slp_read(&bytes, false, false), common::slp_read(&bytes, false, false)) {
@@ -58,6 +169,25 @@ impl Monitor for C14 {
 				return out;
 			}
 		};
+		// history: every 4th case first exports, on this thread, a game of a LATER MAJOR version with the
+		// same minor and ports (the reader accepts it with the newest layout). That export is outside
+		// this property and is not judged; the export of the case's own game right after it is.
+		if idx % 4 == 1 {
+			let mut r3 = crate::rng::Rng::derive(ctx.seed, 0xC14A ^ idx as u64);
+			let major = [4u8, 5, 9, 255][(idx / 4) % 4];
+			if let Some(ob) = common::sibling_game((major, truth.version.1, 0), &truth.start, 3, &mut r3) {
+				match common::slp_read(&ob, false, false) {
+					Ok(g) => {
+						let (v, p) = (g.start.slippi.version, common::ports_of(&g.start));
+						match guard(move || g.frames.into_struct_array(v, &p).len()) {
+							Ok(_) => out.count("later_major_export_before_this_one", 1),
+							Err(_) => out.count("later_major_export_panicked_before_this_one(not judged)", 1),
+						}
+					}
+					Err(_) => out.count("later_major_game_not_readable(not judged)", 1),
+				}
+			}
+		}
 		let version = game.start.slippi.version;
 		let ports = common::ports_of(&game.start);
 		let chars = view::occupied_chars(&truth.start);
